@@ -82,14 +82,14 @@ def run(ctx, rnd):
             if specs[n] == "id":
                 want_calls.append((n + "-id", texts[n], "d", None, None))
                 outs[n] = "T[%s-id]" % n
-            elif specs[n] == "plain" or (n in implicit and how == "static"):
+            elif specs[n] == "plain" or (n in implicit and how in ("static", "dynamic")):
                 want_calls.append((texts[n], texts[n], "d", None, None))
                 outs[n] = "T[%s]" % texts[n]
             elif n in implicit and how == "interp" and n == "alt":
                 # (title="${t}" has no static text of its own: nothing to translate implicitly)
                 # implicit translation of an interpolated attribute: the message id is the text with its ${name}
                 # placeholders, the values travel in the mapping
-                want_calls.append(("Lo${g}", None, "d", None, None))
+                want_calls.append(("Lo${g}", "Lo${g}", "d", None, None))
                 outs[n] = "T[%s]" % texts[n]
             else:
                 outs[n] = texts[n]
